@@ -342,7 +342,7 @@ fn owns(focus: Focus, class: &str, lo: u64) -> bool {
 		Focus::C02 => matches!(class, "acked_lost" | "acked_write_missing" | "panic") || (class == "open_failed" && lo > 0),
 		Focus::C03 => matches!(class, "not_prefix" | "future_data" | "scan_disagree" | "get_scan_disagree" | "panic"),
 		Focus::C11 => matches!(class, "acked_lost" | "acked_write_missing" | "not_prefix" | "read_error" | "scan_disagree" | "get_scan_disagree" | "panic") || (class == "open_failed" && lo > 0),
-		Focus::C10 => matches!(class, "history_mismatch" | "get_at_mismatch" | "read_error" | "panic") || (class == "open_failed" && lo > 0),
+		Focus::C10 => matches!(class, "history_mismatch" | "history_entries_lost" | "get_at_mismatch" | "read_error" | "panic") || (class == "open_failed" && lo > 0),
 		Focus::C07 => matches!(
 			class,
 			"open_failed" | "reopen_differs" | "probe_shadowed" | "probe_commit_failed" | "close_failed" | "background_error" | "read_error" | "panic" | "recovery_not_idempotent"
